@@ -5,7 +5,9 @@
 #ifndef VM_MAXBLK
 #define VM_MAXBLK 48
 #endif
-struct vm_blk { void* p; uint64_t n; int live; } vm_blks[VM_MAXBLK];
+struct vm_blk { void* p; uint64_t n; int live; int adopted; } vm_blks[VM_MAXBLK];
+#define VM_GUARD 2048
+#include <string.h>
 int vm_nblk; uint64_t vm_cur, vm_peak; int vm_alloc_count, vm_fail_at = -1, vm_errors;
 #ifdef __CPROVER__
 #define VM_CHECK(c, msg) __CPROVER_assert(c, msg)
@@ -13,22 +15,27 @@ int vm_nblk; uint64_t vm_cur, vm_peak; int vm_alloc_count, vm_fail_at = -1, vm_e
 #include <stdio.h>
 #define VM_CHECK(c, msg) do { if (!(c)) { fprintf(stderr, "ledger: %s\n", msg); vm_errors++; } } while (0)
 #endif
+static int vm_adopting;
 static void vm_record(void* p, uint64_t n){
   int slot = -1;
 #ifndef __CPROVER__
   for (int i = 0; i < vm_nblk; i++) if (!vm_blks[i].live) { slot = i; break; }   /* native runs are long: reuse dead slots */
 #endif
   if (slot < 0) { VM_CHECK(vm_nblk < VM_MAXBLK, "ledger capacity exceeded (raise VM_MAXBLK)"); if (vm_nblk < VM_MAXBLK) slot = vm_nblk++; }
-  if (slot >= 0) { vm_blks[slot].p = p; vm_blks[slot].n = n; vm_blks[slot].live = 1; }
+  if (slot >= 0) { vm_blks[slot].p = p; vm_blks[slot].n = n; vm_blks[slot].live = 1; vm_blks[slot].adopted = vm_adopting; }
   vm_cur += n; if (vm_cur > vm_peak) vm_peak = vm_cur;
 }
 void* vm_new(uint64_t n){
   if (vm_alloc_count++ == vm_fail_at) { vr_throw(VR_EXC_BAD_ALLOC); return 0; }
-  void* p = malloc(n ? n : 1);
 #ifdef __CPROVER__
+  void* p = malloc(n ? n : 1);
   __CPROVER_assume(p != 0);
 #else
+  /* native runs: a guard zone behind every block, checked when the block is released (a write past the end of a block is a
+   * ledger error like a double delete; CBMC runs have their own bounds checks) */
+  void* p = n > ((uint64_t)1 << 40) ? 0 : malloc((n ? n : 1) + VM_GUARD);
   if (!p) { vr_throw(VR_EXC_BAD_ALLOC); return 0; }      /* a request the heap cannot serve: operator new throws */
+  memset((char*)p + n, 0xA5, VM_GUARD);
 #endif
   vm_record(p, n);
   return p;
@@ -36,12 +43,16 @@ void* vm_new(uint64_t n){
 void vm_delete(void* p){
   if (!p) return;
   int found = 0;
-  for (int i = 0; i < vm_nblk && i < VM_MAXBLK; i++) if (vm_blks[i].p == p && vm_blks[i].live) { vm_blks[i].live = 0; vm_cur -= vm_blks[i].n; found = 1; break; }
+  for (int i = 0; i < vm_nblk && i < VM_MAXBLK; i++) if (vm_blks[i].p == p && vm_blks[i].live) { vm_blks[i].live = 0; vm_cur -= vm_blks[i].n; found = 1;
+#ifndef __CPROVER__
+    if (!vm_blks[i].adopted) { int clean = 1; for (int g = 0; g < VM_GUARD; g++) if (((unsigned char*)p)[vm_blks[i].n + g] != 0xA5) clean = 0; VM_CHECK(clean, "write past the end of a block obtained from the allocator"); }
+#endif
+    break; }
   VM_CHECK(found, "delete of a pointer that is not a live block (double free / foreign pointer / interior pointer)");
   if (found) free(p);
 }
 /* adopt a block built by the harness (pre-state) so that the code under test may free it */
-void vm_adopt(void* p, uint64_t n){ vm_record(p, n); }
+void vm_adopt(void* p, uint64_t n){ vm_adopting = 1; vm_record(p, n); vm_adopting = 0; }
 int vm_live_blocks(void){ int c = 0; for (int i = 0; i < vm_nblk && i < VM_MAXBLK; i++) c += vm_blks[i].live; return c; }
 int vm_is_live(void* p){ for (int i = 0; i < vm_nblk && i < VM_MAXBLK; i++) if (vm_blks[i].p == p && vm_blks[i].live) return 1; return 0; }
 uint64_t vm_block_size(void* p){ for (int i = 0; i < vm_nblk && i < VM_MAXBLK; i++) if (vm_blks[i].p == p && vm_blks[i].live) return vm_blks[i].n; return (uint64_t)-1; }
